@@ -98,7 +98,7 @@ fn serve(
     if let Some(pool) = pool {
         let rt2 = tokio::runtime::Builder::new_current_thread().enable_all().build().expect("runtime");
         rt2.block_on(async {
-            let _ = tokio::time::timeout(std::time::Duration::from_secs(20), pool.close()).await;
+            let _ = tokio::time::timeout(std::time::Duration::from_secs(60), pool.close()).await;
         });
     }
     Gate::uninstall(id);
